@@ -269,6 +269,13 @@ def _cells_source(F, fb, ftm, join):
             built = clean(ftm.operand(e["site"].args[0], e["site"].bb))
             if built == t or contains(t, lambda q: q == built):
                 src = clean(e["src"])
+                # read the loop's source under the same partition as everything else (a helper that chooses the order by
+                # `sorted` may have been written out in place)
+                tm_all = Terms(fb)
+                for c in fb.calls():
+                    if c.func.get("method") == "next" and c.bb in ftm.live and clean(tm_all.operand(c.args[0], c.bb)) == src:
+                        src = clean(ftm.operand(c.args[0], c.bb))
+                        break
                 return src, not [x for x in calls_in(src) if re.search(bad, x[1])]
     return None, False
 
@@ -388,6 +395,44 @@ def R4_header(ctx):
         ok = ho is not None and ro is not None and ho[0] == ro[0] and ho[0] is not None and ho[1] == "keys" and ro[1] == "entries"
         ctx.check(ok, inst, "CSV header order (%s) and row order (%s) do not use matching ordering over the same mapping" % (ho, ro), fb.where(), detail="header %s <-> rows %s" % (ho, ro))
         ctx.check(one_cell, "csv:one-cell-per-entry:%s" % srt, "rows are not one cell per mapping entry", fb.where())
+    # a cell is the JSON text of the mapped value (strings quoted and escaped: a comma or line break inside a value cannot
+    # split the row), an empty cell when the mapping fails
+    cells = []
+    for cb in tree_of(F, fb.path):
+        if not [c for c in cb.calls() if (c.callee or "").endswith("CsvMapping::apply_mapping")]:
+            continue
+        if cb is fb:
+            for e in elementwise_builds(fb):
+                v0 = clean(e["values"][0]) if e["values"] else None
+                if v0 is not None and contains(v0, lambda q: q[0] == "call" and q[1].endswith("CsvMapping::apply_mapping")):
+                    cells += list(v0[1]) if v0[0] == "phi" else [v0]
+        else:
+            rt = clean(Terms(cb).return_term())
+            cells += list(rt[1]) if rt[0] == "phi" else [rt]
+    is_apply = lambda q: q[0] == "call" and q[1].endswith("CsvMapping::apply_mapping")
+    is_empty = lambda q: (q[0] == "call" and re.search(r"String::new$", q[1].split("{")[0])) or (q[0] == "call" and re.search(r"From<&str>>::from$|::to_string$|::to_owned$|String::from$|::from$", q[1].split("{")[0]) and len(q[2]) == 1 and q[2][0][0] == "const" and q[2][0][2] == "")
+    # `apply_mapping(..).map(|v| v.to_string()).unwrap_or_else(|e| { ..; String::new() })` is the same two cases
+    cells2 = []
+    for q in cells:
+        if q[0] == "call" and re.search(r"Result::<T, E>::unwrap_or(_else|_default)?$", q[1].split("{")[0]) and q[2]:
+            cells2.append(norm_adaptors(F, q[2][0]))
+            if len(q[2]) == 2:
+                d_ = q[2][1]
+                if d_[0] == "closure" and d_[1] in F.bodies:
+                    d_ = clean(Terms(F.bodies[d_[1]]).return_term())
+                cells2.append(d_)
+            else:
+                cells2.append(("call", "String::new", ()))
+        else:
+            cells2.append(q)
+    cells = cells2
+    okcell = bool([q for q in cells if contains(q, is_apply)])
+    for q in cells:
+        if contains(q, is_apply):
+            okcell = okcell and q[0] == "call" and re.search(r"ToString>?::to_string$", q[1]) is not None and len(q[2]) == 1 and is_apply(q[2][0])
+        else:
+            okcell = okcell and is_empty(q)
+    ctx.check(okcell, "csv:cell=json-text", "a CSV cell is not the JSON text (`to_string()`) of the mapped value, or not empty when the mapping fails: %s" % [short(q)[:80] for q in cells][:3], fb.where(), detail="cell = apply_mapping(response).to_string() / \"\"")
     # JSON
     jb = F.need(R + "response_output_format_json::format_response")
     got = {}
